@@ -22,7 +22,8 @@ REQUIRED_COUNTERS = {'fn.expectation_value': 20, 'fn.correlation_function': 20, 
                      'fn.sample_measurements': 20, 'fn.sample_measurements_ops': 10, 'fn.term_list_correlation_function': 10, 'fn.get_rho_segment': 10, 'fn.charge_statistics': 10, 'fn.env': 10,
                      'fermionic.cases': 20}
 FUNCS = ['expectation_value', 'expectation_value_multi', 'correlation_function', 'correlation_function', 'correlation_jw_mixed',
-         'expectation_value_term', 'term_correlation_function', 'term_list_correlation_function', 'expectation_value_terms_sum', 'overlap',
+         'expectation_value_term', 'term_correlation_function', 'term_list_correlation_function', 'term_list_correlation_function',
+         'term_list_correlation_function', 'expectation_value_terms_sum', 'overlap',
          'sample_measurements', 'sample_measurements_ops', 'get_rho_segment', 'charge_statistics', 'env', 'mutinf']
 
 
@@ -347,19 +348,26 @@ def do_term_list_correlation_function(ctx, rng, psi, vec, sites, kind, qt, case)
     if L < 4 or any(s is not s0 for s in sites):
         raise _Skip()
     ctx.count('fn.term_list_correlation_function')
-    ferm = dense.is_fermionic(s0) and rng.random() < 0.5
+    ferm = dense.is_fermionic(s0) and rng.random() < 0.75
 
     def rand_list(width):
         terms, strengths = [], []
+        if ferm and width > 1 and rng.random() < 0.4:
+            # odd terms starting on different sites
+            terms = [[(opnames(s0, rng, 'fermionic'), 0)], [(opnames(s0, rng, 'fermionic'), 1)]]
+            strengths = [1.0, complex(np.round(rng.standard_normal(), 2), 0.5)]
+            ctx.count('term_list_correlation_function.odd_terms_with_different_starts')
+            return terms, strengths
         for _ in range(int(rng.integers(1, 4))):
+            # terms of one list need not start on the same site (the shorter ones are padded, with Jordan-Wigner factors if odd)
+            pos = sorted(int(x) for x in rng.permutation(width)[:int(rng.integers(1, width + 1))]) if rng.random() < 0.6 else [0]
+            if len(pos) == 1 and pos[0] != 0:
+                ctx.count('term_list_correlation_function.term_not_starting_at_0')
             if ferm:
-                t = [(opnames(s0, rng, 'fermionic'), 0)]  # one fermionic operator per term: every term of a list is odd
-                if width > 1 and rng.random() < 0.4:
-                    t.append((opnames(s0, rng, 'bosonic'), 1))
+                kf = int(rng.integers(len(pos)))  # one fermionic operator per term: every term of a list is odd
+                t = [(opnames(s0, rng, 'fermionic' if k_ == kf else 'bosonic'), x_) for k_, x_ in enumerate(pos)]
             else:
-                t = [(opnames(s0, rng, 'bosonic'), 0)]
-                if width > 1 and rng.random() < 0.4:
-                    t.append((opnames(s0, rng, 'bosonic'), 1))
+                t = [(opnames(s0, rng, 'bosonic'), x_) for x_ in pos]
             terms.append(t)
             strengths.append(complex(np.round(rng.standard_normal(), 2), np.round(rng.standard_normal(), 2) if rng.random() < 0.3 else 0))
         return terms, strengths
